@@ -27,9 +27,12 @@ func (m *c17Remote) fetch(p []byte, off int64) (int, error) {
 		m.fails++
 		return 0, io.ErrUnexpectedEOF
 	}
-	if m.mayFail && verifChoice("fetch_fails", 2) == 1 {
-		m.fails++
-		return 0, c17ErrRemote
+	if m.mayFail {
+		// a failing fetch reports what io.ReadFull reports for an empty / short body, or any other error
+		if k := verifChoice("fetch_outcome", 3); k != 0 {
+			m.fails++
+			return 0, []error{nil, io.EOF, c17ErrRemote}[k]
+		}
 	}
 	o := verifConcInt(int(off))
 	copy(p, m.data[o:o+len(p)])
